@@ -192,7 +192,7 @@ func vExpire(c *Cache[byte], model []vEnt) ([]vEnt, bool) {
 	return keep, true
 }
 
-// verif: unwind=24 cover=evicted,deleted,expired bounds="locus 0..1 bytes, max 0..3, minPerBucket 0..2 (constructor precondition assumed), 3 (quick) / 4 (thorough) operations from put/delete/expire with 1-byte keys, 3-bit instants" map_perm_max=1
+// verif: unwind=24 cover=evicted,deleted,expired bounds="locus 0..1 bytes, max 0..3, minPerBucket 0..2 (constructor precondition assumed), 3 operations from put/delete/expire with 1-byte keys, 3-bit instants (4 free operations did not finish in 45 minutes: outside the claim; cacheScripts covers fixed 4-operation shapes)" map_perm_max=1
 func VH_C18_cacheOps() bool {
 	locus := vBytes(1)
 	max := vInt(0, 3)
@@ -201,9 +201,6 @@ func VH_C18_cacheOps() bool {
 	c := NewCache[byte](locus, max, minPB)
 	var model []vEnt
 	nops := 3
-	if vThorough() {
-		nops = 4
-	}
 	ok := true
 	for i := 0; i < nops; i++ {
 		switch vInt(0, 2) {
@@ -250,16 +247,11 @@ func VH_C18_cacheFullBuckets() bool {
 // keys, values and instants: deeper than cacheOps' 3 free operations at a fraction of the paths.
 var vScripts = [5]string{"PPDE", "PPEE", "PDPE", "PEPE", "PPEP"}
 
-// verif: unwind=24 cover=evicted,deleted,expired map_perm_max=1 bounds="quick: empty locus (one bucket), max 1..3, scripts PPDE PPEE PDPE; thorough: locus 0..1 bytes, max 1..3, all five scripts (PPDE PPEE PDPE PEPE PPEP); minPerBucket 0, symbolic 1-byte keys, values and 3-bit instants"
+// verif: unwind=24 cover=evicted,deleted,expired map_perm_max=1 bounds="empty locus (one bucket), max 1..3, scripts PPDE PPEE PDPE (locus 0..1 bytes with all five scripts did not finish within 40 minutes: outside the claim); minPerBucket 0, symbolic 1-byte keys, values and 3-bit instants"
 func VH_C18_cacheScripts() bool {
 	var locus []byte
 	max := vInt(1, 3)
 	nscripts := 2
-	if vThorough() {
-		locus = vBytes(1)
-		max = vInt(1, 3)
-		nscripts = 4
-	}
 	c := NewCache[byte](locus, max, 0)
 	var model []vEnt
 	script := vScripts[vInt(0, nscripts)]
